@@ -739,15 +739,19 @@ class Object(base.Symbolic, metaclass=ObjectMeta):
           root_path=root_path,
           as_object_attributes_container=True,
       )
+      self._set_raw_attr('_sym_attributes', sym_attributes)
+      # NOTE: an argument may refuse this object as its parent (e.g. a
+      # `pg.Ref` to one of the other arguments' ancestors).
+      self._sym_attributes.sym_setparent(self)
     except BaseException:
       # The arguments accepted before the refused one are stored nowhere: they
       # are the roots of their own trees again.
       for v in field_args.values():
-        if isinstance(v, base.Symbolic) and v.sym_parent is None:
+        if isinstance(v, base.Symbolic) and (
+            v.sym_parent is None or v.sym_parent is self):
+          v.sym_setparent(None)
           v.sym_setpath(utils.KeyPath())
       raise
-    self._set_raw_attr('_sym_attributes', sym_attributes)
-    self._sym_attributes.sym_setparent(self)
     self._on_init()
     # NOTE: a new node is not sealed, and the members it was given keep their
     # own flags unless the node itself is sealed.
